@@ -711,6 +711,15 @@ impl Session {
                     "current_size" => { out.ret = ret_json("int"); out.ret["a"] = json!(enc(cache.current_size())); },
                     "max_size" => { out.ret = ret_json("int"); out.ret["a"] = json!(enc(cache.max_size())); },
                     "capacity" => { out.ret = ret_json("int"); out.ret["a"] = json!(enc(cache.capacity())); },
+                    "hasher" => {
+                        // the builder the cache reports must hash like the one it was given
+                        // (every cache of a session is created with a clone of self.hb)
+                        use std::hash::BuildHasher;
+                        let probe = 0x5eed_u32;
+                        let same = cache.hasher().hash_one(probe) == hb.hash_one(probe)
+                            && std::mem::discriminant(cache.hasher()) == std::mem::discriminant(&hb);
+                        out.ret = ret_json(if same { "own" } else { "other" });
+                    },
                     "debug" => {
                         let s = format!("{:?}", cache);
                         let body = s.trim_start_matches('{').trim_end_matches('}');
@@ -822,10 +831,12 @@ impl Session {
                     "peek_mru" => g.with_protected(cache, step, || {
                         bb(cache.peek_mru().map(|(kk, _)| kk.tok).unwrap_or(0));
                     }),
-                    "len" | "is_empty" | "current_size" | "max_size" | "capacity" =>
+                    "len" | "is_empty" | "current_size" | "max_size" | "capacity" | "hasher" =>
                         g.with_protected(cache, step, || {
+                            use std::hash::BuildHasher;
                             bb(cache.len() as u64 + cache.is_empty() as u64 + cache.current_size() as u64
-                                + cache.max_size() as u64 + cache.capacity() as u64);
+                                + cache.max_size() as u64 + cache.capacity() as u64
+                                + cache.hasher().hash_one(7u32));
                         }),
                     "iter" | "keys" | "values" | "debug" => g.with_protected(cache, step, || {
                         let mut s = 0u64;
